@@ -32,6 +32,16 @@
      writer, every visible index entry is backed by its content.  Hypotheses: as above plus the writers' data do not
      collide with content already stored, and the initial entries are backed (true of the empty cache and of every
      state such writers reach: C07_backed_reachable).
+   * C07_serializable_with_readers — the property's statement for {write, remove, read}, UNBOUNDED: for any number of
+     keyed one-shot writers, tombstone removers and readers by key, any interleaving of all their steps, from any
+     cache that is the result of a sequential history (HistP.HInv; the empty cache included), there is ONE sequential
+     order of the writers / removers (a permutation: the order of their append steps) and for every reader a position
+     n in it such that every writer / remover returns what it returns alone, every read of the final tree answers as
+     on the tree obtained by RUNNING the writers / removers one after the other in that order ([serial]: real
+     sequential runs of the library's write / delete programs), and the reader's result is the result of the same read
+     on the tree obtained by running the first n of them one after the other.  Hypotheses: arguments the record codec
+     accepts (kv_ok, decidable), no digest collision among the data involved (NoColl) nor with content already stored
+     (coll0).
    Serialisability of whole operations mixing readers / removers / listers, bounded (the bound is part of each statement): for the nine concrete pairs below — drawn from the
    property's operation set on cold and warm caches, with a toy hash, concrete keys and contents (two writers of one key /
    of one content are taken after their private temp-file phase, i.e. as two commits) — EVERY interleaving of
@@ -41,7 +51,7 @@
    removers and readers by key (above); for streamed writers, removals by address, listers and existence tests it is
    bounded (the pairs below); triples and the real kernel's atomicity are exercised by the forced-schedule suite on the
    real binaries. *)
-From CC Require Import Bytes Codec Utf8 Lines Json Sri Record Fs Prog Api Sess Crash Conc BytesP CodecP FsP ProgP SriP RecordP IndexP ReadP WriteP CommitP RemoveP CrashP CrashIdxP FormatP ConfineP RecCodecP ConcP ConcIdxP ConcWriteP ConcReadP.
+From CC Require Import Bytes Codec Utf8 Lines Json Sri Record Fs Prog Api Sess Crash Conc BytesP CodecP FsP ProgP SriP RecordP IndexP ReadP WriteP CommitP RemoveP CrashP CrashIdxP FormatP ConfineP RecCodecP KeepP HistP MetaP ConcP ConcIdxP ConcWriteP ConcReadP ConcSerP.
 From Coq Require Import Permutation.
 Local Open Scope N_scope.
 
@@ -126,6 +136,32 @@ Theorem C07_backed_reachable (HL : HashLen hash) ws f0 s :
   Forall (fun x => wf_rec hash (hop_rec (x_hop hash x))) ws ->
   preach (map (wprog hash) ws, f0) s -> CacheInv (snd s) /\ Backed hash (snd s).
 Proof. intros H1 H2 H3 H4 H5. exact (reach_cache_ok hash HL ws f0 H1 H2 H3 H4 H5 s). Qed.
+
+(* writers, removers and readers: one sequential order explains every result and the final state *)
+Theorem C07_serializable_with_readers (HL : HashLen hash) ws f0 m0 W0 ks pl' rl' f' rs :
+  HInv hash f0 m0 W0 -> coll0 hash ws f0 ->
+  forallb (kv_ok hash) (map kv_of ws) = true -> NoColl hash (W0 ++ written (map kv_of ws)) ->
+  oreach (map (wprog hash) ws, map (read hash) ks, f0) (pl', rl', f') -> results pl' = Some rs ->
+  exists perm,
+    Permutation perm ws /\
+    rs = map (fun x => Ok (x_res hash x)) ws /\
+    (forall k, fst (run (read hash k) f') = fst (run (read hash k) (serial hash f0 perm))) /\
+    (forall j a, (j < List.length ks)%nat -> nth j rl' (Ret Stuck) = Ret a ->
+       exists n, (n <= List.length perm)%nat /\ a = fst (run (read hash (nth j ks [])) (serial hash f0 (firstn n perm)))).
+Proof. intros H1 H2 H3 H4. exact (serializable_with_readers hash HL ws f0 m0 W0 H1 H2 H3 H4 ks pl' rl' f' rs). Qed.
+
+(* [serial] is the sequential execution of the library's programs: a writer's [write], a remover's [delete] *)
+Theorem C07_serial_is_sequential f0 x xs :
+  serial hash f0 (x :: xs) =
+  serial hash (if ws_rm x then snd (run (delete hash (ws_key x) (ws_now x)) f0)
+               else snd (run (write hash Sync (ws_a x) (ws_key x) (ws_data x) (ws_now x)) f0)) xs.
+Proof. unfold serial, kv_of. cbn [map fold_left]. destruct (ws_rm x); reflexivity. Qed.
+
+(* the hypothesis on the initial cache holds for the empty cache and after every sequential history *)
+Theorem C07_initial_cache_ok (HL : HashLen hash) h :
+  forallb (kv_ok hash) h = true -> NoColl hash (written h) ->
+  HInv hash (fold_left (kv_run hash) h []) (fold_left kv_step h (fun _ => None)) (written h).
+Proof. intros H1 H2. exact (history_refines hash HL h [] _ [] (hinv_empty hash) H1 H2). Qed.
 
 Theorem C07_backed_empty : Backed hash [].
 Proof. exact (backed_empty hash). Qed.
@@ -280,6 +316,16 @@ Proof.
   repeat (apply Forall_cons; [apply wf_rec_api; vm_compute; reflexivity|]). apply Forall_nil.
 Qed.
 
+Example C07_serializable_hypotheses :
+  HInv toy_hash [] (fun _ => None) [] /\ coll0 toy_hash ex_ws [] /\
+  forallb (kv_ok toy_hash) (map kv_of ex_ws) = true /\ NoColl toy_hash ([] ++ written (map kv_of ex_ws)).
+Proof.
+  split; [exact (hinv_empty toy_hash)|]. split; [intros x d _ _ H; discriminate|]. split; [vm_compute; reflexivity|].
+  intros a d a' d' H1 H2 E. cbn in H1, H2.
+  destruct H1 as [H1|[H1|[H1|[]]]]; destruct H2 as [H2|[H2|[H2|[]]]]; inversion H1; inversion H2; subst; try reflexivity;
+    vm_compute in E; discriminate.
+Qed.
+
 Print Assumptions C07_explore_complete.
 Print Assumptions C07_interleave_invariant.
 Print Assumptions C07_conc_content_inv.
@@ -288,6 +334,8 @@ Print Assumptions C07_conc_index_serializable.
 Print Assumptions C07_conc_writes_serializable.
 Print Assumptions C07_observations_monotone.
 Print Assumptions C07_readers_among_writers.
+Print Assumptions C07_serializable_with_readers.
+Print Assumptions C07_initial_cache_ok.
 Print Assumptions C07_atomic_read_value.
 Print Assumptions C07_backed_reachable.
 Print Assumptions C07_hop_prog_is_insert.
